@@ -508,6 +508,6 @@ func runConcurrent(t *rapid.T) {
 }
 
 func TestC17Concurrent(t *testing.T) {
-	ev.Checks(40, 800)
+	ev.Checks(40, 600)
 	rapid.Check(t, runConcurrent)
 }
